@@ -8,8 +8,15 @@ its id; every relationship object carries self and related links and, when prese
 that is null, one type/id identifier or an array of them. When included resources are added
 through the document's Include operation, no type/ID pair appears twice across primary data
 and included."
+
+The clause "a successful marshal returns syntactically valid JSON" is `C03_valid_json` /
+`C03_valid_json_model` / `C03_valid_json_resource`: the tree a successful marshal returns
+renders (`Json.render`: the bytes `encoding/json` writes) to a text that the strict JSON
+parser `Spec.parseJson` reads back as exactly that tree. The only hypothesis is on the JSON
+values the caller hands over verbatim (meta objects, error sources): their number literals
+must match the JSON number grammar (`Document.numsOk`).
 -/
-import Jsonapi.Proofs.MarshalLemmas4
+import Jsonapi.Proofs.MarshalJsonLemmas
 namespace Jsonapi
 open MarshalL
 
@@ -95,6 +102,56 @@ theorem C03_resource_object (r : ResView) (prepath : GoString) (fields : List Go
     rw [(relObject_get_data_some hd).2]
     exact relDataJson_isLinkage r rel
 
+/-! ### syntactic validity of the rendered document
+
+`Document.numsOk` (Jsonapi/Proofs/MarshalJsonLemmas.lean): the document's meta, the meta of
+each of its links and the source and meta of each of its errors — the JSON values the caller
+supplies verbatim — contain only number literals of the JSON grammar. Resource objects carry
+no meta inside a `Document` (`marshalDocument` and `Spec.documentTree` marshal every resource
+with the default `rmeta := []`), so there is no condition on resources at all. -/
+
+/-- 8. Valid JSON, specification tree: the bytes `encoding/json` writes for the document tree
+parse, as strict compact JSON, to exactly that tree. -/
+theorem C03_valid_json (doc : Document) (fields : GoMap (List GoString)) (selfHref : GoString)
+    (t : Json) (hn : doc.numsOk) (h : Spec.documentTree doc fields selfHref = some t) :
+    Spec.parseJson t.render = some t :=
+  JsonL.parseJson_render t (MJsonL.documentTree_numsOk hn h)
+
+/-- 8'. Valid JSON, model: whatever document the model's `MarshalDocument` is given (no
+hypothesis on its resources: those outside the domain of C04 included), the tree of a
+successful result renders to a text that parses to exactly that tree. -/
+theorem C03_valid_json_model (doc : Document) (fields : GoMap (List GoString))
+    (selfHref : GoString) (t : Json) (doc' : Document) (hn : doc.numsOk)
+    (h : marshalDocument doc fields selfHref = .ok (t, doc')) :
+    Spec.parseJson t.render = some t :=
+  JsonL.parseJson_render t (MJsonL.marshalDocument_numsOk hn h)
+
+/-- 8''. Valid JSON, one resource object with a meta object of well-formed numbers. No
+hypothesis on the resource. -/
+theorem C03_valid_json_resource (r : ResView) (prepath : GoString) (fields : List GoString)
+    (relData : GoMap (List GoString)) (rmeta : Meta) (hm : Json.numsOkMembers rmeta) :
+    Spec.parseJson (Spec.resourceObject r prepath fields relData rmeta).render =
+      some (Spec.resourceObject r prepath fields relData rmeta) :=
+  JsonL.parseJson_render _ (MJsonL.resourceObject_numsOk r prepath fields relData rmeta hm)
+
+/-- The same for whatever the model's `MarshalResource` returns (any resource, meta of
+well-formed numbers). -/
+theorem C03_valid_json_resource_model (r : ResView) (prepath : GoString)
+    (fields : List GoString) (relData : GoMap (List GoString)) (rmeta : Meta) (j : Json)
+    (r' : ResView) (hm : Json.numsOkMembers rmeta)
+    (h : marshalResource r prepath fields relData rmeta = .ok (j, r')) :
+    Spec.parseJson j.render = some j :=
+  JsonL.parseJson_render j (MJsonL.marshalResource_numsOk hm h)
+
+/-- Two documents that marshal to the same bytes marshal to the same tree: the text
+determines the tree. -/
+theorem C03_render_determines_tree (doc1 doc2 : Document) (f1 f2 : GoMap (List GoString))
+    (s1 s2 : GoString) (t1 t2 : Json) (d1 d2 : Document) (hn1 : doc1.numsOk) (hn2 : doc2.numsOk)
+    (h1 : marshalDocument doc1 f1 s1 = .ok (t1, d1)) (h2 : marshalDocument doc2 f2 s2 = .ok (t2, d2))
+    (hr : t1.render = t2.render) : t1 = t2 :=
+  JsonL.render_injective t1 t2 (MJsonL.marshalDocument_numsOk hn1 h1)
+    (MJsonL.marshalDocument_numsOk hn2 h2) hr
+
 /-- The Include invariant in terms of (type, id) pairs: starting from any document whose
 primary data and included resources have pairwise distinct (type, id) pairs (and whose
 typed collection holds resources of its type), every history of Include calls — repeated
@@ -153,6 +210,11 @@ theorem C03_include_unique (ops : List ResView) (d0 : Document) (hinc : d0.inclu
 #print axioms C03_toplevel_model
 #print axioms C03_toplevel_model_any
 #print axioms C03_resource_object
+#print axioms C03_valid_json
+#print axioms C03_valid_json_model
+#print axioms C03_valid_json_resource
+#print axioms C03_valid_json_resource_model
+#print axioms C03_render_determines_tree
 #print axioms C03_include_unique_pairs
 #print axioms C03_keyFaithful_of_noSpace
 #print axioms C03_include_unique_gen
@@ -182,5 +244,94 @@ example :
     let d := [c04_res [97] [98, 32, 99]].foldl Document.include d0
     DocOk d0 ∧ d0.included = [] ∧
     ¬ (Spec.primaryKeys d ++ d.included.map resKey).Nodup := by decide
+
+/-! ### non-vacuity of the valid-JSON theorems, and why `Document.numsOk` is needed -/
+
+/-- a resource of type "a", id "1", with an int attribute n = -5 and a string attribute s
+holding a quote and `<` -/
+def c03_res : ResView :=
+  { typeName := [97], id := [49],
+    attrs := [([110], { name := [110], ty := 2, nullable := false }),
+              ([115], { name := [115], ty := 1, nullable := false })],
+    rels := [],
+    vals := [([110], .val .int (.i (-5))), ([115], .val .string (.s [34, 60]))] }
+
+/-- that resource as primary data, no errors, meta {"n":1.5e3}, path prefix "/" -/
+def c03_doc : Document :=
+  { data := .res c03_res, dmeta := [([110], .num [49, 46, 53, 101, 51])], prePath := [47] }
+
+/-- fields[a]=n,s -/
+def c03_fields : GoMap (List GoString) := [([97], [[110], [115]])]
+
+example : c03_doc.numsOk := by decide
+
+example : ∀ r ∈ docResources c03_doc, r.keyedWf := by decide
+
+/-- the document tree, members sorted by key -/
+def c03_tree : Json :=
+  .obj [(K.data, .obj [
+          (K.attributes, .obj [([110], .num [45, 53]), ([115], .str [34, 60])]),
+          (K.id, .str [49]),
+          (K.links, .obj [(K.self, .str [47, 97, 47, 49])]),
+          (K.type, .str [97])]),
+        (K.jsonapi, .obj [(K.version, .str K.v10)]),
+        (K.links, .obj [(K.self, .str [47, 97, 47, 49])]),
+        (K.kmeta, .obj [([110], .num [49, 46, 53, 101, 51])])]
+
+theorem c03_printNat5 : printNat 5 = [53] := by rw [printNat]; decide
+
+theorem c03_doc_tree :
+    Spec.documentTree c03_doc c03_fields [47, 97, 47, 49] = some c03_tree := by
+  simp (decide := true) [Spec.documentTree, c03_doc, c03_res, c03_fields, c03_tree,
+    Spec.dataMember, Spec.resourceObject, Spec.selection, sortMembers, List.mergeSort,
+    GoMap.get?, GoMap.vals, ResView.get, encodeAttr, encodeVal, encodePay, printInt,
+    c03_printNat5, buildSelfLink, List.MergeSort.Internal.splitInTwo, K.data, K.jsonapi,
+    K.links, K.kmeta, K.self, K.id, K.type, K.attributes, K.slash]
+
+/-- the theorem applies to the sample, for the specification's tree and for the model's -/
+example : Spec.parseJson c03_tree.render = some c03_tree :=
+  C03_valid_json c03_doc c03_fields [47, 97, 47, 49] c03_tree (by decide) c03_doc_tree
+
+example : ∃ doc', marshalDocument c03_doc c03_fields [47, 97, 47, 49] = .ok (c03_tree, doc') ∧
+    Spec.parseJson c03_tree.render = some c03_tree := by
+  obtain ⟨doc', h⟩ := (marshalDocument_eq c03_doc (by decide) c03_fields [47, 97, 47, 49]).2 _
+    c03_doc_tree
+  exact ⟨doc', h, C03_valid_json_model _ _ _ _ _ (by decide) h⟩
+
+/-- the bytes of the sample, spelled out:
+`{"data":{"attributes":{"n":-5,"s":"\"\u003c"},"id":"1","links":{"self":"/a/1"},"type":"a"},`
+`"jsonapi":{"version":"1.0"},"links":{"self":"/a/1"},"meta":{"n":1.5e3}}` -/
+example : c03_tree.render =
+    [123, 34, 100, 97, 116, 97, 34, 58, 123, 34, 97, 116, 116, 114, 105, 98, 117, 116, 101, 115,
+     34, 58, 123, 34, 110, 34, 58, 45, 53, 44, 34, 115, 34, 58, 34, 92, 34, 92, 117, 48, 48, 51,
+     99, 34, 125, 44, 34, 105, 100, 34, 58, 34, 49, 34, 44, 34, 108, 105, 110, 107, 115, 34, 58,
+     123, 34, 115, 101, 108, 102, 34, 58, 34, 47, 97, 47, 49, 34, 125, 44, 34, 116, 121, 112,
+     101, 34, 58, 34, 97, 34, 125, 44, 34, 106, 115, 111, 110, 97, 112, 105, 34, 58, 123, 34,
+     118, 101, 114, 115, 105, 111, 110, 34, 58, 34, 49, 46, 48, 34, 125, 44, 34, 108, 105, 110,
+     107, 115, 34, 58, 123, 34, 115, 101, 108, 102, 34, 58, 34, 47, 97, 47, 49, 34, 125, 44, 34,
+     109, 101, 116, 97, 34, 58, 123, 34, 110, 34, 58, 49, 46, 53, 101, 51, 125, 125] := by
+  decide
+
+/-- The hypothesis matters: a document whose meta holds the number literal `01` is not in
+the domain, it marshals (to the tree below), and the text of that tree,
+`{"data":null,"jsonapi":{"version":"1.0"},"links":{"self":""},"meta":{"x":01}}`,
+is rejected by the parser. -/
+def c03_bad : Document := { dmeta := [([120], .num [48, 49])] }
+
+example : ¬ c03_bad.numsOk := by decide
+
+def c03_bad_tree : Json :=
+  .obj [(K.data, .null), (K.jsonapi, .obj [(K.version, .str K.v10)]),
+        (K.links, .obj [(K.self, .str [])]), (K.kmeta, .obj [([120], .num [48, 49])])]
+
+theorem c03_bad_doc_tree : Spec.documentTree c03_bad [] [] = some c03_bad_tree := by
+  simp (decide := true) [Spec.documentTree, c03_bad, c03_bad_tree, Spec.dataMember,
+    sortMembers, List.mergeSort, List.MergeSort.Internal.splitInTwo, K.data, K.jsonapi,
+    K.links, K.kmeta, K.self]
+
+example : ∃ t doc', Spec.documentTree c03_bad [] [] = some t ∧
+    marshalDocument c03_bad [] [] = .ok (t, doc') ∧ Spec.parseJson t.render = none := by
+  obtain ⟨doc', h⟩ := (marshalDocument_eq c03_bad (by decide) [] []).2 _ c03_bad_doc_tree
+  exact ⟨c03_bad_tree, doc', c03_bad_doc_tree, h, by decide⟩
 
 end Jsonapi
